@@ -42,6 +42,6 @@ def run(seed, tier, replay=None):
     # against a profile and an override that ask for retries)
     from props import mix
     attempts = lambda sc, r: [v for v in mix.mon_retries(sc, r) if v["kind"] == "attempt-count"]
-    return mix.merge(run_p(seed, tier, replay), mix.check([attempts], seed, tier, 14, 40))
+    return mix.merge(run_p(seed, tier, replay), mix.check([attempts], seed, tier, 15, 40))
 
 KNOWN_MATCHERS = {}
